@@ -141,15 +141,24 @@ def path_state(cp, *, lines=None, printouts=None, errors=None):
     }
 
 
+_HARNESS_HOME = os.path.dirname(os.path.abspath(__file__))
+
+
 def in_repo(tb_or_exc):
-    """True when the innermost frame of the exception lies in the csvpath
-    package under test (as opposed to harness code)."""
+    """True when the exception originates in the csvpath package under test:
+    walking the traceback inwards, the innermost frame that belongs to either
+    the harness or csvpath is csvpath's (frames of the standard library or of
+    dependencies below it were called by csvpath)."""
     tb = tb_or_exc.__traceback__ if isinstance(tb_or_exc, BaseException) else tb_or_exc
-    last = None
+    owner = None
     while tb is not None:
-        last = tb.tb_frame.f_code.co_filename
+        fn = os.path.abspath(tb.tb_frame.f_code.co_filename)
+        if fn.startswith(CSVPATH_HOME):
+            owner = "repo"
+        elif fn.startswith(_HARNESS_HOME):
+            owner = "harness"
         tb = tb.tb_next
-    return bool(last) and os.path.abspath(last).startswith(CSVPATH_HOME)
+    return owner == "repo"
 
 
 def exc_sig(e):
